@@ -7,8 +7,8 @@
 #define G_SCHEME_REQ   0x001   /* scheme always present */
 #define G_SCHEME_OPT   0x002   /* scheme present or absent */
 #define G_AUTH         0x004   /* authority present or absent */
-#define G_USERINFO     0x008   /* user info absent / empty / one character */
-#define G_PORT         0x010   /* port absent / empty / one digit */
+#define G_USERINFO     0x008   /* user info absent / empty / 1..GEN_COMP_L characters */
+#define G_PORT         0x010   /* port absent / empty / 1..GEN_COMP_L digits */
 #define G_QUERY        0x020
 #define G_FRAG         0x040
 #define G_HOSTKINDS    0x080   /* reg-name, IPv4, IPv6 (full lowercase form), IPvFuture */
@@ -62,6 +62,14 @@ static int g_in_class(int cls, unsigned long c){
 #ifndef GEN_PCT_MAX
 #define GEN_PCT_MAX 1
 #endif
+#ifdef GEN_REGNAME_FUTURELIKE
+#define GEN_NHOSTKINDS 5
+#else
+#define GEN_NHOSTKINDS 4
+#endif
+#ifndef GEN_COMP_L
+#define GEN_COMP_L 1   /* maximal length of user info, port, query and fragment */
+#endif
 static int g_pct_used;
 static long g_tok(CH *d, long n, int cls, int flags, const char *name){
   if ((flags & G_PCT) && g_pct_used < GEN_PCT_MAX && uk_choice(2, "pct")){
@@ -82,7 +90,7 @@ static long g_run(CH *d, long n, int maxlen, int cls, int flags, const char *nam
 static long g_lit(CH *d, long n, const char *s){ while (*s) d[n++] = (CH)*s++; return n; }
 
 /* Build a URI reference into d (capacity must be sufficient: see GEN_CAP). K segments of at most L characters. */
-#define GEN_CAP(K, L) (2 + 3 + 4 + 45 + 3 + ((K) * (3 * (L) + 1)) + 5 + 5 + 8)
+#define GEN_CAP(K, L) (2 + 3 + 4 + 45 + 3 + ((K) * (3 * (L) + 1)) + 5 + 5 + 8 + 12 * GEN_COMP_L)
 static long gen_uri(CH *d, int flags, int K, int L, const char *name){
   long n = 0; int has_scheme = 0, has_auth = 0, k, nseg, lead;
   if ((flags & G_SCHEME_REQ) || ((flags & G_SCHEME_OPT) && uk_choice(2, "scheme"))){
@@ -92,9 +100,11 @@ static long gen_uri(CH *d, int flags, int K, int L, const char *name){
   }
   if ((flags & G_AUTH_REQ) || ((flags & G_AUTH) && uk_choice(2, "auth"))){
     has_auth = 1; d[n++] = '/'; d[n++] = '/';
-    if (flags & G_USERINFO){ int u = uk_choice(3, "userinfo"); if (u >= 1){ if (u == 2) n = g_tok(d, n, G_CLS_USERINFO, flags, name); d[n++] = '@'; } }
-    { int hk = (flags & G_HOSTKINDS) ? uk_choice(4, "hostkind") : 0;
-      if (hk == 0){
+    if (flags & G_USERINFO){ int u = uk_choice(2 + GEN_COMP_L, "userinfo"), q; if (u >= 1){ for (q = 1; q < u; q++) n = g_tok(d, n, G_CLS_USERINFO, flags, name); d[n++] = '@'; } }
+    { int hk = (flags & G_HOSTKINDS) ? uk_choice(GEN_NHOSTKINDS, "hostkind") : 0;
+      if (hk == 4){ /* GEN_REGNAME_FUTURELIKE: a reg-name spelled like the inside of an IPvFuture literal */
+        CH c = g_sym(name); uk_assume(g_is_regname_nopct(CHV(c))); n = g_lit(d, n, "v1."); d[n++] = c;
+      } else if (hk == 0){
         if (flags & G_EMPTYHOST) n = g_run(d, n, 2, G_CLS_REGNAME, flags, name);
         else { n = g_tok(d, n, G_CLS_REGNAME, flags, name); n = g_run(d, n, 1, G_CLS_REGNAME, flags, name); }
 #ifdef GEN_IP4_FULL
@@ -112,7 +122,7 @@ static long gen_uri(CH *d, int flags, int K, int L, const char *name){
       else if (hk == 2){ CH c = g_sym(name); uk_assume(g_is_hex(CHV(c)) && !(CHV(c) >= 'A' && CHV(c) <= 'F')); n = g_lit(d, n, "[0000:0000:0000:0000:0000:0000:0000:000"); d[n++] = c; d[n++] = ']'; }
       else { CH c = g_sym(name); uk_assume(g_is_regname_nopct(CHV(c)) || CHV(c) == ':'); n = g_lit(d, n, "[v1."); d[n++] = c; d[n++] = ']'; }
     }
-    if (flags & G_PORT){ int p = uk_choice(3, "port"); if (p >= 1){ d[n++] = ':'; if (p == 2){ CH c = g_sym(name); uk_assume(g_is_digit(CHV(c))); d[n++] = c; } } }
+    if (flags & G_PORT){ int p = uk_choice(2 + GEN_COMP_L, "port"), q; if (p >= 1){ d[n++] = ':'; for (q = 1; q < p; q++){ CH c = g_sym(name); uk_assume(g_is_digit(CHV(c))); d[n++] = c; } } }
   }
   /* path: nseg segments; leading slash optional unless an authority is present */
   nseg = uk_choice(K + 1, "nseg");
@@ -122,8 +132,8 @@ static long gen_uri(CH *d, int flags, int K, int L, const char *name){
     if (k > 0) d[n++] = '/';
     n = g_run(d, n, L, G_CLS_PCHAR, flags, name);
   }
-  if ((flags & G_QUERY) && uk_choice(2, "query")){ d[n++] = '?'; n = g_run(d, n, 1, G_CLS_QUERY, flags, name); }
-  if ((flags & G_FRAG) && uk_choice(2, "frag")){ d[n++] = '#'; n = g_run(d, n, 1, G_CLS_QUERY, flags, name); }
+  if ((flags & G_QUERY) && uk_choice(2, "query")){ d[n++] = '?'; n = g_run(d, n, GEN_COMP_L, G_CLS_QUERY, flags, name); }
+  if ((flags & G_FRAG) && uk_choice(2, "frag")){ d[n++] = '#'; n = g_run(d, n, GEN_COMP_L, G_CLS_QUERY, flags, name); }
   (void)has_scheme;
   return n;
 }
